@@ -889,6 +889,9 @@ impl LdapConnAsync {
                         }
                         if remove {
                             self.searchmap.remove(&id);
+                            // The Search is over, its message ID can be reused.
+                            let mut msgmap = self.msgmap.lock().expect("msgmap mutex (search done)");
+                            msgmap.1.remove(&id);
                         }
                     } else if let Some(tx) = self.resultmap.remove(&id) {
                         if let Err(e) = tx.send((tag, controls)) {
